@@ -1,5 +1,75 @@
-(* Wire entry points of the C15 model (stub until the model is built). *)
-From Coq Require Import ZArith List.
-From SG Require Import Base.Sx.
+(* Wire entry points of the C15 model (weighted UQ quadrature). *)
+From Coq Require Import ZArith List Bool QArith Qcanon.
+From SG Require Import Base.Sx Base.QcUtil Model.Trap Model.UQ.
+Import ListNotations.
 Open Scope Z_scope.
-Definition entry_C15 (sub : Z) (a : sx) : sx := sx_err 0.
+
+(* extended reals: (0 q) finite, (1) +inf, (-1) -inf *)
+Definition get_ext (s : sx) : option ext :=
+  match s with
+  | Lv [Zv 0; q] => match get_Qc q with Some q => Some (Fin q) | None => None end
+  | Lv [Zv 1] => Some PosInf
+  | Lv [Zv (-1)] => Some NegInf
+  | _ => None
+  end.
+Definition of_ext (e : ext) : sx :=
+  match e with Fin q => Lv [Zv 0; of_Qc q] | PosInf => Lv [Zv 1] | NegInf => Lv [Zv (-1)] end.
+
+Definition get_ival (s : sx) : option ival :=
+  match s with
+  | Lv [x1; x2; m0; m1] =>
+    match get_ext x1, get_ext x2, get_Qc m0, get_Qc m1 with
+    | Some x1, Some x2, Some m0, Some m1 => Some {| i_x1 := x1; i_x2 := x2; i_m0 := m0; i_m1 := m1 |}
+    | _, _, _, _ => None
+    end
+  | _ => None
+  end.
+
+Definition of_opt_list (o : option (list Qc)) : sx :=
+  match o with Some w => Lv [Zv 1; of_LQc w] | None => Lv [Zv 0] end.
+
+Definition of_ivals (l : list ival) : sx :=
+  Lv (map (fun iv => Lv [of_Qc (i_m0 iv); of_Qc (i_m1 iv)]) l).
+
+(* sub 0: (boundary mb a b ((x1 x2 m0 m1) ...)) -> (1 (w ...)) | (0)   compute_weights with the moments the implementation saw (a, b used by the modified basis only)
+   sub 1: (boundary a b (x ...))           -> ((1 (w ...)) | (0)) ((m0 m1) ...)   uniform distribution in closed form
+   sub 2: (boundary a c b (x ...))         -> same for the triangle distribution
+   sub 3: (a b (x ...))                    -> (1 (w ...)) | (0)     modified basis (uniform only)
+   sub 4: (a b mid0)                       -> (1 mid) | (0)          get_middle_weighted, 0 = NaN
+   sub 5: ((mom ...))                      -> ((E ...) (Var ...))    calculate_expectation_and_variance on the combined integral *)
+Definition entry_C15 (sub : Z) (arg : sx) : sx :=
+  match sub, arg with
+  | 0, Lv [bd; mb; a; b; Lv ivs] =>
+    match get_bool bd, get_bool mb, get_Qc a, get_Qc b, opt_all (map get_ival ivs) with
+    | Some bd, Some mb, Some a, Some b, Some ivs => of_opt_list (wtrap bd mb a b ivs)
+    | _, _, _, _, _ => sx_err 1
+    end
+  | 1, Lv [bd; a; b; xs] =>
+    match get_bool bd, get_Qc a, get_Qc b, get_LQc xs with
+    | Some bd, Some a, Some b, Some xs => Lv [of_opt_list (wtrap bd false a b (uni_ivals a b xs)); of_ivals (uni_ivals a b xs)]
+    | _, _, _, _ => sx_err 1
+    end
+  | 2, Lv [bd; a; c; b; xs] =>
+    match get_bool bd, get_Qc a, get_Qc c, get_Qc b, get_LQc xs with
+    | Some bd, Some a, Some c, Some b, Some xs =>
+      Lv [of_opt_list (wtrap bd false a b (tri_ivals a c b xs)); of_ivals (tri_ivals a c b xs)]
+    | _, _, _, _, _ => sx_err 1
+    end
+  | 3, Lv [a; b; xs] =>
+    match get_Qc a, get_Qc b, get_LQc xs with
+    | Some a, Some b, Some xs => of_opt_list (wtrap_modified xs a b)
+    | _, _, _ => sx_err 1
+    end
+  | 4, Lv [a; b; m] =>
+    match get_ext a, get_ext b, get_ext m with
+    | Some a, Some b, Some m =>
+      match get_middle_weighted a b m with Some r => Lv [Zv 1; of_ext r] | None => Lv [Zv 0] end
+    | _, _, _ => sx_err 1
+    end
+  | 5, Lv [moms] =>
+    match get_LQc moms with
+    | Some ms => let '(e, v) := expectation_and_variance ms in Lv [of_LQc e; of_LQc v]
+    | None => sx_err 1
+    end
+  | _, _ => sx_err 0
+  end.
